@@ -69,7 +69,7 @@ func genC08(t *rapid.T) c08Case {
 	if kind == "init" {
 		c.Op.User, c.Op.Admin = "root", true
 	}
-	c.Leftover = rapid.SampledFrom([]string{"", "", "random-name", "user-name", "user-file-name", "many"}).Draw(t, "leftover")
+	c.Leftover = rapid.SampledFrom([]string{"", "", "random-name", "user-name", "user-file-name", "many", "learned", "learned"}).Draw(t, "leftover")
 	return c
 }
 
@@ -206,6 +206,27 @@ func TestC08CrashAtomicity(t *testing.T) {
 			os.Mkdir(filepath.Join(s.base, ".tmp"), 0o700)
 			names := map[string][]string{"random-name": {"123456789"}, "user-name": {c.Op.User}, "user-file-name": {fileName(c.Op.User, c.Op.Admin), fileName(c.Op.User, !c.Op.Admin)},
 				"many": {"1", "22", c.Op.User, fileName(c.Op.User, c.Op.Admin), "tmp", ".hidden"}}[c.Leftover]
+			if c.Leftover == "learned" {
+				// the names a writer really uses for its scratch files are learned from a dry run of the same operation on a copy of the
+				// store: a writer killed earlier left exactly such files behind (if the names are random the residue is simply unrelated)
+				if s0, err := newSandbox(c.Cfg, c.Pre, true); err == nil {
+					if res0, _, err := s0.trace([]Op{c.Op}, nil, false); err == nil && len(res0.Ops) == 1 {
+						seen := map[string]bool{}
+						for _, ev := range res0.Ops[0].Events {
+							for rel := range ev.Before {
+								if strings.HasPrefix(rel, ".tmp/") && !seen[rel] {
+									seen[rel] = true
+									names = append(names, strings.TrimPrefix(rel, ".tmp/"))
+								}
+							}
+						}
+					}
+					s0.cleanup()
+				}
+				if len(names) > 0 {
+					vlib.Class("work-area-had-leftovers-under-the-names-a-dry-run-used")
+				}
+			}
 			for _, n := range names {
 				os.WriteFile(filepath.Join(s.base, ".tmp", n), junk, 0o600)
 			}
